@@ -1682,7 +1682,8 @@ impl<'arena> PrettyFormatter<'arena> {
     }
 
     fn named_term(&self, term: TermId, field: &FieldName, inner: TermId) -> RcDoc<'arena> {
-        let payload = self.punning.term_payload(field, inner);
+        // A payload in a singleton group that is elided anyway puns like the bare one.
+        let payload = self.punning.term_payload(field, self.transparent_term_group(inner));
         match payload {
             | Some(PunnedTermPayload::Variable) => RcDoc::text("= ").append(self.field(field)),
             | Some(PunnedTermPayload::Annotated { variable, classifier }) => {
@@ -1795,7 +1796,7 @@ impl<'arena> PrettyFormatter<'arena> {
     }
 
     fn named_pattern(&self, pattern: PatId, field: &FieldName, inner: PatId) -> RcDoc<'arena> {
-        match self.punning.pattern_payload(field, inner) {
+        match self.punning.pattern_payload(field, self.transparent_pattern_group(inner)) {
             | Some(PunnedPatternPayload::Variable) => RcDoc::text("= ").append(self.field(field)),
             | Some(PunnedPatternPayload::Annotated { variable, classifier }) => {
                 RcDoc::text("= ").append(self.field(field)).append(self.fragment_boundary(
@@ -1813,7 +1814,7 @@ impl<'arena> PrettyFormatter<'arena> {
     }
 
     fn projection_pattern(&self, pattern: PatId, field: &FieldName, inner: PatId) -> RcDoc<'arena> {
-        match self.punning.pattern_payload(field, inner) {
+        match self.punning.pattern_payload(field, self.transparent_pattern_group(inner)) {
             | Some(PunnedPatternPayload::Variable) => RcDoc::text("/").append(self.field(field)),
             | Some(PunnedPatternPayload::Annotated { variable, classifier }) => {
                 RcDoc::text("/").append(self.field(field)).append(self.fragment_boundary(
